@@ -2,6 +2,7 @@ import Lean.Data.Json
 import OsloPolicy.Model.Enforce
 import OsloPolicy.Spec.Grammar
 import OsloPolicy.Model.Validate
+import OsloPolicy.Model.Loader
 import OsloPolicy.Generated.PyTables
 /-
 JSON-lines driver: one request per line on stdin, one answer per line on stdout.
@@ -140,6 +141,53 @@ partial def toE0 (j : Json) : Except String (E 0) :=
     | _ => throw "bad E0"
 end
 
+def contentOf (j : Json) : Except String Content :=
+  match j with
+  | .arr kvs => kvs.toList.mapM fun kv => match kv with
+    | .arr #[.str k, v] => do let v' ← toJVal v; pure (s2l k, v')
+    | _ => throw "bad content pair"
+  | _ => throw "content must be a list of pairs"
+
+def fsOf (j : Json) : Except String FS := do
+  let main ← match getD j "main" with
+    | .null => pure none
+    | m => do let c ← contentOf (getD m "c"); pure (some (c, getNatD m "t"))
+  let dirs ← (getArrD j "dirs").toList.mapM fun d => match d with
+    | .null => pure none
+    | d => do
+      let es ← (getArrD d "entries").toList.mapM fun e => do
+        let c ← contentOf (getD e "c")
+        pure ({ name := s2l (getStrD e "n"), isDir := getBoolD e "d", mtime := getNatD e "t", content := c } : Entry)
+      pure (some ({ mtime := getNatD d "t", entries := es } : Dir))
+  pure { main := main, dirs := dirs }
+
+def regsOf (j : Json) : Except String (List RuleDefault) :=
+  (getArrD j "regs").toList.mapM fun r => do
+    let cs ← toJVal (getD r "check_str")
+    let dep ← match getD r "deprecated" with
+      | .arr #[.str on, ov] => do let v ← toJVal ov; pure (some (s2l on, v))
+      | _ => pure none
+    pure ({ name := s2l (getStrD r "name"), checkStr := cs, deprecated := dep } : RuleDefault)
+
+def storeJson (s : Store) : Json :=
+  .arr (s.map fun (k, t) => Json.arr #[Json.str (l2s k), Json.str (l2s t.print)]).toArray
+
+/-- canonical form of a file system for comparison with the harness's snapshot -/
+def fsCanon (fs : FS) : String :=
+  let c2s (c : Content) : String := toString (c.map fun (k, v) => (l2s k, l2s v.pyStr))
+  let main := match fs.main with | none => "none" | some (c, t) => s!"{c2s c}@{t}"
+  let dirs := fs.dirs.map fun od => match od with
+    | none => "none"
+    | some d =>
+      let es := (sortByName d.entries).map fun (e : Entry) => s!"{l2s e.name}:{e.isDir}:{e.mtime}:{c2s e.content}"
+      s!"{d.mtime}{es}"
+  s!"{main}|{dirs}"
+
+def fileIdOf (j : Json) : FileId :=
+  match getD j "dir" with
+  | .null => .main
+  | _ => .dirFile (getNatD j "dir") (s2l (getStrD j "name"))
+
 def handle (j : Json) : Except String Json := do
   match getStrD j "op" with
   | "lex" =>
@@ -195,6 +243,40 @@ def handle (j : Json) : Except String Json := do
       | .str n => some (s2l n)
       | _ => none
     pure (Json.mkObj [("status", validatorStatus (getBoolD j "file_missing") rules.entries fr reg)])
+  | "loader" => do
+    -- {"enforce_new_defaults":b, "regs":[…], "fs":<initial>, "steps":[{"op":"write|touch|delete","dir":i|null,"name":…,
+    --   "c":content,"t":time} | {"op":"load","force":b,"fs":<snapshot>}]}
+    let enforceNew := getBoolD j "enforce_new_defaults" true
+    let regs ← regsOf j
+    let fs0 ← fsOf (getD j "fs")
+    let mut fs := fs0
+    let mut e := Enf.init fs0.dirs.length
+    let mut outs : Array Json := #[]
+    for st in getArrD j "steps" do
+      match getStrD st "op" with
+      | "load" =>
+        let snap ← fsOf (getD st "fs")
+        let agree := fsCanon snap == fsCanon fs
+        -- the model runs on the harness's snapshot (what the real code sees); `fs_model_agrees` says
+        -- whether the model's own file-operation semantics (fsStep) predicted that snapshot
+        fs := snap
+        e := load enforceNew regs e fs (getBoolD st "force")
+        let fr := fresh enforceNew regs fs
+        outs := outs.push (Json.mkObj [("rules", storeJson e.rules), ("fresh", storeJson fr.rules),
+          ("file_rules", .arr (e.fileRules.map fun (k, _) => Json.str (l2s k)).toArray),
+          ("fs_model_agrees", agree)])
+      | "write" => do
+        let c ← contentOf (getD st "c")
+        fs := fsStep fs (getNatD st "t") (.write (fileIdOf st) c)
+      | "touch" => fs := fsStep fs (getNatD st "t") (.touch (fileIdOf st))
+      | "delete" => fs := fsStep fs (getNatD st "t") (.delete (fileIdOf st))
+      | o => throw s!"bad loader step {o}"
+    pure (Json.mkObj [("loads", .arr outs)])
+  | "pick_file" =>
+    let ctor := match getD j "ctor" with | .str s => some (s2l s) | _ => none
+    let i : PickInput := ⟨ctor, s2l (getStrD j "value"), getBoolD j "never_configured", getBoolD j "yaml_exists",
+      getBoolD j "json_exists", getBoolD j "fallback"⟩
+    pure (Json.mkObj [("file", l2s (pickPolicyFile i))])
   | "spec_den" => do
     -- {"e": <stratified expression>, "assign": [[true leaf texts…]…]} ↦ Boolean value of the
     -- sentence under each assignment, computed by Spec.Grammar (not by the parser model)
